@@ -1,6 +1,7 @@
 import Props.C05
 import Props.C08
 import Model.EcdhWire
+import Props.NamedPrimes
 /-!
 # C05 (key-loader half) — `remote_validated` for the environment linked into the model driver
 
@@ -23,10 +24,11 @@ def Valid (vk : EcdhWire.VK) : Prop :=
     vk.point = .jac { curve := EcdhWire.fpOf c, x := x, y := y, z := 1, order := some c.n, generator := false } ∧
     x < c.p ∧ y < c.p ∧ onCurve c x y = true ∧ (c.h ≠ 1 → KeysWire.subgroupOkModel c x y = true)
 
-/-- the curves a key constructor can meet: rows in play and rows of the generated table -/
+/-- the curves a key constructor can meet: the rows in play, and those rows of the generated table that a DER/PEM
+key can be attached to in this history (the ones found in the curve list by name) -/
 def CurvesOK (cs : Array EcdhWire.CParams) : Prop :=
   (∀ i, i < cs.size → (cs[i]!).p.Prime ∧ (cs[i]!).p % 2 = 1 ∧ (cs[i]!).n ≠ 0) ∧
-  (∀ c ∈ Gen.curveTable, c.p.Prime)
+  (∀ c ∈ Gen.curveTable, EcdhWire.indexOfCurve cs c ≠ none → c.p.Prime)
 
 theorem valid_of_fromString (c : Keys.Curve) (hp : c.p.Prime) (hodd : c.p % 2 = 1) (hn : c.n ≠ 0) (b : Bytes) (k : Keys.VK)
     (i : Nat) (h : VK.fromString KeysWire.modelExt c b true = .ok k) : Valid (EcdhWire.ofKeysVK i k) := by
@@ -36,20 +38,46 @@ theorem valid_of_fromString (c : Keys.Curve) (hp : c.p.Prime) (hodd : c.p % 2 = 
   exact ⟨k.curve, k.x, k.y, rfl, by rw [hc]; exact hx, by rw [hc]; exact hy, by rw [hc]; exact hon,
     by rw [hc]; exact hsub⟩
 
-theorem valid_of_fromDer (htab : ∀ c ∈ Gen.curveTable, c.p.Prime) (b : Bytes) (k : Keys.VK) (i : Nat)
+/-- an accepted key carries the curve it was decoded for (no hypothesis) -/
+theorem fromString_curve (E : Ext) (c : Keys.Curve) (s : Bytes) (v : Bool) (k : Keys.VK)
+    (h : VK.fromString E c s v = .ok k) : k.curve = c := by
+  unfold VK.fromString at h
+  cases hd : decodePoint E c s v with
+  | error e => simp [hd] at h
+  | ok xy =>
+    obtain ⟨x, y⟩ := xy
+    simp only [hd] at h
+    unfold fromPublicPoint at h
+    split at h
+    · cases h
+    · split at h
+      · cases h
+      · split at h
+        · cases h
+        · split at h
+          · cases h
+          · cases h; rfl
+
+theorem valid_of_fromDer (cs : Array EcdhWire.CParams)
+    (htab : ∀ c ∈ Gen.curveTable, EcdhWire.indexOfCurve cs c ≠ none → c.p.Prime) (b : Bytes) (k : Keys.VK) (i : Nat)
+    (hi : EcdhWire.indexOfCurve cs k.curve = some i)
     (h : VK.fromDer KeysWire.modelExt b = .ok k) : Valid (EcdhWire.ofKeysVK i k) := by
   obtain ⟨c, hc, pt, _, _, hfs⟩ := (C08.from_der_accepts_iff_partial KeysWire.modelExt b k).1 h
-  exact valid_of_fromString c (htab c hc) (C08.table_p_odd c hc).1 (C08.table_p_odd c hc).2 pt k i hfs
+  -- the accepted key carries the curve of its OID
+  have hodd := (C08.table_p_odd c hc).1
+  have hkc : k.curve = c := fromString_curve KeysWire.modelExt c pt true k hfs
+  have hp : c.p.Prime := htab c hc (by rw [← hkc, hi]; simp)
+  exact valid_of_fromString c hp hodd (C08.table_p_odd c hc).2 pt k i hfs
 
 theorem locate_ok {α β} {cs : Array EcdhWire.CParams} {r : Res α} {crv : α → Keys.Curve} {f : Nat → α → β} {v : β}
-    (h : EcdhWire.locate cs r crv f = .ok v) : ∃ k i, r = .ok k ∧ v = f i k := by
+    (h : EcdhWire.locate cs r crv f = .ok v) : ∃ k i, r = .ok k ∧ EcdhWire.indexOfCurve cs (crv k) = some i ∧ v = f i k := by
   unfold EcdhWire.locate at h
   cases r with
   | error e => cases h
   | ok k =>
     cases hi : EcdhWire.indexOfCurve cs (crv k) with
     | none => simp [hi] at h
-    | some i => simp only [hi, Except.ok.injEq] at h; exact ⟨k, i, rfl, h.symm⟩
+    | some i => simp only [hi, Except.ok.injEq] at h; exact ⟨k, i, rfl, hi, h.symm⟩
 
 /-- **LoadersValidate for the driver's environment** -/
 theorem driver_loaders_validate (cs : Array EcdhWire.CParams) (hcs : CurvesOK cs) :
@@ -68,16 +96,16 @@ theorem driver_loaders_validate (cs : Array EcdhWire.CParams) (hcs : CurvesOK cs
         exact valid_of_fromString _ hp hodd hn b k c hk
     · simp [hc] at h
   · intro b vk h
-    obtain ⟨k, i, hk, rfl⟩ := locate_ok h
-    exact valid_of_fromDer hcs.2 b k i hk
+    obtain ⟨k, i, hk, hi, rfl⟩ := locate_ok h
+    exact valid_of_fromDer cs hcs.2 b k i hi hk
   · intro b vk h
-    obtain ⟨k, i, hk, rfl⟩ := locate_ok h
+    obtain ⟨k, i, hk, hi, rfl⟩ := locate_ok h
     rw [C08.from_pem_is_from_der_of_unpem] at hk
     cases hu : unpem KeysWire.modelExt b with
     | error e => simp [hu] at hk
     | ok d =>
       simp only [hu] at hk
-      exact valid_of_fromDer hcs.2 d k i hk
+      exact valid_of_fromDer cs hcs.2 d k i hi hk
 
 /-- **remote_validated for the driver's environment**: over every history of calls, the remote key the ECDH object
 holds is one it held initially, one passed in as an object, or a point that passed the code's validation -/
@@ -87,14 +115,33 @@ theorem remote_validated_driver (cs : Array EcdhWire.CParams) (hcs : CurvesOK cs
     s0.pub = some vk ∨ Op.loadPub vk ∈ ops ∨ Valid vk :=
   C05.remote_validated (EcdhWire.env cs) Valid (driver_loaders_validate cs hcs) s0 ops vk h
 
-/-- non-vacuity of `CurvesOK`: the empty curve list given the primality facts of the table (the hypotheses of
-`Props/NamedPrimes`); and of `Valid`: a concrete valid key on the toy curve y² = x³ + x + 6 over F₁₁ -/
-example (htab : ∀ c ∈ Gen.curveTable, c.p.Prime) : CurvesOK #[] := ⟨fun i hi => absurd hi (by simp), htab⟩
-
+/-- non-vacuity: a real curve list — a toy `Curve` object and the module-level NIST P-256 — satisfies `CurvesOK` with NO
+hypothesis left (11 is prime; the field prime of P-256 carries the certificate of `Props/NamedPrimes`; the only row of the
+generated table a DER/PEM key can be attached to in this list is P-256 itself) -/
 def toyRow : Keys.Curve :=
   { name := "toy", p := 11, a := 1, b := 6, gx := 2, gy := 4, n := 13, h := 1, oid := [], opensslName := none }
 
 example : Valid (EcdhWire.ofKeysVK 0 ⟨toyRow, 2, 4⟩) :=
   ⟨toyRow, 2, 4, rfl, by decide, by decide, by decide, fun h => absurd rfl h⟩
+
+theorem toy_curves_ok : CurvesOK #[toyRow, Gen.curve_NIST256p] := by
+  refine ⟨?_, ?_⟩
+  · intro i hi
+    have : i = 0 ∨ i = 1 := by simp at hi; omega
+    rcases this with rfl | rfl
+    · exact ⟨by decide, by decide, by decide⟩
+    · exact ⟨NamedPrimes.prime_p_NIST256p, by decide +kernel, by decide +kernel⟩
+  · intro c hc hne
+    have : c = Gen.curve_NIST256p := by
+      revert c
+      decide +kernel
+    rw [this]; exact NamedPrimes.prime_p_NIST256p
+
+/-- hence, unconditionally: over every history on these two curve objects, a remote key held by the ECDH object was passed
+in as an object or passed the code's validation -/
+theorem remote_validated_toy_and_p256 (s0 : State Nat EcdhWire.WPt) (ops : List (Op Nat EcdhWire.WPt Int)) (vk : EcdhWire.VK)
+    (h : (run (EcdhWire.env #[toyRow, Gen.curve_NIST256p]) s0 ops).pub = some vk) :
+    s0.pub = some vk ∨ Op.loadPub vk ∈ ops ∨ Valid vk :=
+  remote_validated_driver _ toy_curves_ok s0 ops vk h
 
 end C05k
